@@ -1038,6 +1038,54 @@ where
             present_fc::<B, P, SpyFooter, true>(rec, st, &s.text, &km.unseal, &aad, DecodeMode::Panic, true, json!({"cls":"encoding-foreign","from":"","to":"c"}));
         }
     }
+    // length sweep: the END of every piece is authenticated, over total sizes (message + footer + assertion) that cross whatever
+    // buffer a pre-authentication writer might use: every (third) size up to 140, then a ladder fine enough to put each of the three
+    // shapes (bulk in the message / in the footer / in the assertion) into any window of 40 sizes, up to 1300
+    let slow = B::VER == 1 && purpose == "public";
+    let sizes: Vec<usize> = (0..=140usize).step_by(if cfg.thorough { 1 } else { 3 }).chain((141..=1300usize).step_by(if cfg.thorough { 5 } else { 11 })).collect();
+    for (k, &total) in sizes.iter().enumerate() {
+        if slow && k % 4 != 0 {
+            continue;
+        }
+        if k % 16 == 0 || slow {
+            rec.emit(json!({"ev":"Reset","scenario":format!("tamper-sweep-{}-{}-{}", B::NAME, purpose, total)}));
+            learn(rec, purpose, km);
+        }
+        let shape = if slow { (k / 4) % 3 } else { k % 3 };
+        let small = 1 + k % 4;
+        let (ml, fl, al) = match shape {
+            0 => (total, 0, 0),
+            1 => (small.min(total), total - small.min(total), 0),
+            _ if has_aad => (small.min(total), 0, total - small.min(total)),
+            _ => (total / 2, total - total / 2, 0),
+        };
+        let (claims, footer, aad) = (rng.bytes(ml), rng.bytes(fl), rng.bytes(al));
+        let Some(s) = seal_lib::<B, P>(rec, st, &km.seal, &claims, &footer, &aad, (false, false), None) else { continue };
+        present::<B, P>(rec, st, &s.text, &km.unseal, &aad, DecodeMode::Ok, true, json!({"cls":"identity","sweep":total}));
+        let (p, f) = (&s.payload, &s.footer);
+        // the last byte of the message (public: in the clear before the signature; local: the last ciphertext byte before the tag)
+        if p.len() > tlen + nlen {
+            let mut q = p.clone();
+            let at = p.len() - tlen - 1;
+            q[at] ^= 1 << (k % 8);
+            let (m, v) = next_mode(true);
+            present::<B, P>(rec, st, &token_string::<B, P>(&q, f), &km.unseal, &aad, m, v, json!({"cls":"bitflip","field":"message-end","sweep":total}));
+        }
+        if !f.is_empty() {
+            let mut g = f.clone();
+            let at = g.len() - 1;
+            g[at] ^= 1 << (k % 8);
+            let (m, v) = next_mode(true);
+            present::<B, P>(rec, st, &token_string::<B, P>(p, &g), &km.unseal, &aad, m, v, json!({"cls":"bitflip","field":"footer-end","sweep":total}));
+        }
+        if !aad.is_empty() {
+            let mut a2 = aad.clone();
+            let at = a2.len() - 1;
+            a2[at] ^= 1 << (k % 8);
+            let (m, v) = next_mode(true);
+            present::<B, P>(rec, st, &s.text, &km.unseal, &a2, m, v, json!({"cls":"assertion-replaced","field":"assertion-end","sweep":total}));
+        }
+    }
 }
 
 fn relabel<B: Backend, P: Purpose>(rec: &mut Recorder, st: &mut Stats, s: &Sealed, km: &KeyMat, aad: &[u8], rng: &mut Prng)
